@@ -16,3 +16,6 @@ def check(ctx: Ctx) -> None:
     S.r_spawner_capacity_info(ctx, "R02.5")
     S.r_snapshot_forget(ctx, "R13.1")
     S.r_registry_who(ctx, "R03.1")
+    # no slot is lost only if every task has an id of its own: two tasks filed under one id overwrite each other, the second one's ending finds nothing and raises before it releases (id discipline shared with C11)
+    from . import naming as _N
+    _N.r_id_discipline(ctx, "R02.9")
